@@ -589,6 +589,10 @@ func filestat(h FileLister, r *Request, pkt requestPacket) responsePacket {
 	finfo := make([]os.FileInfo, 1)
 	n, err := lister.ListAt(finfo, 0)
 	finfo = finfo[:n] // avoid need for nil tests below
+	if c, ok := lister.(io.Closer); ok {
+		// this lister serves this one request only: release it as the ListerAt contract promises.
+		c.Close()
+	}
 
 	switch r.Method {
 	case "Stat", "Lstat":
